@@ -15,6 +15,8 @@ pub enum Layout {
     Crlf,
     /// pretty: declarations/statements on own lines, 2-space indentation by nesting level
     Pretty,
+    /// one token per line with lone CR line ends (a comment still ends with LF)
+    Cr,
 }
 
 pub const ALL_LAYOUTS: &[Layout] = &[
@@ -24,6 +26,7 @@ pub const ALL_LAYOUTS: &[Layout] = &[
     Layout::Tabs,
     Layout::Crlf,
     Layout::Pretty,
+    Layout::Cr,
 ];
 
 #[derive(Clone, Debug, Default)]
@@ -63,10 +66,16 @@ pub fn render(
     comment_text: &dyn Fn(usize) -> String,
 ) -> Rendered {
     let mut r = Rendered::default();
-    let nl = if layout == Layout::Crlf { "\r\n" } else { "\n" };
+    let nl = match layout {
+        Layout::Crlf => "\r\n",
+        Layout::Cr => "\r",
+        _ => "\n",
+    };
+    // a comment runs to the next LF whatever the layout's line end is
+    let comment_nl = if layout == Layout::Cr { "\n" } else { nl };
     let mut text = String::new();
     match layout {
-        Layout::Lines | Layout::Crlf => text.push_str(nl),
+        Layout::Lines | Layout::Crlf | Layout::Cr => text.push_str(nl),
         Layout::Tabs => text.push_str(" \t"),
         _ => {}
     }
@@ -83,7 +92,7 @@ pub fn render(
             text.push_str("//");
             text.push_str(&ct);
             let end = text.len();
-            text.push_str(nl);
+            text.push_str(comment_nl);
             r.comments.push((g, start, end, ct));
             real += 1;
             fresh_line = true;
@@ -102,7 +111,7 @@ pub fn render(
                     }
                 }
                 Layout::Spaces => text.push(' '),
-                Layout::Lines | Layout::Crlf => {
+                Layout::Lines | Layout::Crlf | Layout::Cr => {
                     text.push_str(nl);
                 }
                 Layout::Tabs => text.push_str(if g % 2 == 0 { "\t" } else { "   " }),
@@ -136,7 +145,7 @@ pub fn render(
         prev = Some(&t.text);
     }
     match layout {
-        Layout::Lines | Layout::Crlf => text.push_str(nl),
+        Layout::Lines | Layout::Crlf | Layout::Cr => text.push_str(nl),
         Layout::Tabs => text.push_str("\t \n"),
         Layout::Pretty => {
             if !toks.is_empty() {
